@@ -165,9 +165,11 @@ def _extract_omega_delta_phi(
             pchip = PCHIP1D(t_grid, signal.real)
             data_mid[:, q_pos] = pchip(t_mid)
             if name == "amp":
-                data_mid[-1, q_pos] = torch.where(
-                    data_mid[-1, q_pos] > 0,
-                    data_mid[-1, q_pos],
+                # every step whose midpoint lies after the last Pulser sample is
+                # extrapolated and may undershoot zero, not only the last one
+                data_mid[:, q_pos] = torch.where(
+                    data_mid[:, q_pos] > 0,
+                    data_mid[:, q_pos],
                     0,
                 )
 
